@@ -38,6 +38,8 @@ RULE = (
     "the call is repeated on shared objects, or a callback returned its argument / a memoised array at least once. "
     "distinct = distinct case descriptor"
 )
+RULE = RULE + " " + 'The AtomGrid.__init__ operation requests shipped and not-shipped (rounded-up) degrees/sizes.'
+
 ASSUMPTIONS = [
     "'caller data' = every array, list, dict created on the caller's side for the call, including the arrays a "
     "receiver object (Grid, OneDGrid, AtomGrid, ...) was constructed from; objects the library allocates itself are "
